@@ -1,4 +1,4 @@
-import GdVerif.Lemmas.Gs3Whole
+import GdVerif.Lemmas.Gs3Extra
 /-
   C09 (GameSpy 3) — requests are the protocol's, go to the right port, and echo the challenge.
 
@@ -112,6 +112,18 @@ theorem C09_gs3_nothing_else (cfg : Spec.Config) (st : Spec.State) (h : Spec.wf 
   rw [query_eq, queryVars_eq]
   exact ⟨(exchange_spec cfg st h port retries buildResponse arrival harr).2,
     (exchange_spec cfg st h port retries buildVars arrival harr).2⟩
+
+/-- The same when the server also sends field sections the client has no place for (`Spec.ConfigX`,
+any allowed extra sections at any positions): the two requests and nothing else. -/
+theorem C09_gs3_nothing_else_extra (cfg : Spec.ConfigX) (st : Spec.State) (h : Spec.wfX cfg st = true) (port retries : Nat)
+    (arrival : List Bytes) (harr : arrival.Perm (Spec.dataPacketsX cfg st)) :
+    sentOf (query port retries (Net.init [.opened ((Spec.handshakeReply cfg.challenge :: arrival).map .data)] [])).2.log
+      = Spec.requestsX cfg
+    ∧ sentOf (queryVars port retries (Net.init [.opened ((Spec.handshakeReply cfg.challenge :: arrival).map .data)] [])).2.log
+      = Spec.requestsX cfg := by
+  rw [query_eq, queryVars_eq]
+  exact ⟨(exchangeX_spec cfg st h port retries buildResponse arrival harr).2,
+    (exchangeX_spec cfg st h port retries buildVars arrival harr).2⟩
 
 -- non-vacuity: a negative challenge, and the one that does not fit the buffer with its NUL
 example : Spec.dataRequest (-2) = [0xFE, 0xFD, 0, 0, 0, 0, 1, 0xFF, 0xFF, 0xFF, 0xFE, 0xFF, 0xFF, 0xFF, 0x01] := by decide
